@@ -213,7 +213,7 @@ def cases(ctx):
             yield "getitem", dict(base, seed=int(rng.integers(1 << 30)), nboxes=12 if quick else 40)
             for mode in MODES:
                 yield "pad", dict(base, mode=mode, seed=int(rng.integers(1 << 30)), nwidths=3 if quick else 8)
-            yield "resample", dict(base, seed=int(rng.integers(1 << 30)), ntargets=24 if quick else 80)
+            yield "resample", dict(base, seed=int(rng.integers(1 << 30)), ntargets=64 if quick else 100)
     # fixed cases: the documented shape of the sel-at-subregion-face and aligned-box problems, integer corners
     yield "sel_range", {"p1": [0.0], "p2": [0.6], "n": [6], "nvdim": 1, "vseed": 1, "subs": [[[1], [2]]], "axis": 0, "seed": 1, "dims": ["x"]}
     yield "getitem", {"p1": [0.1, 0.0], "p2": [0.7, 1.0], "n": [6, 2], "nvdim": 1, "vseed": 1, "subs": [[[0, 0], [1, 1]]], "seed": 1, "nboxes": 30, "dims": ["x", "y"]}
